@@ -69,10 +69,14 @@ def decodeRecords (known : List Nat) (customMin : Nat) (recs : List Rec) : Excep
 
 /-! ## bytes (driver / correspondence only; framing theorems are C13's) -/
 
+/-- the low `w` bytes of `x`, big-endian (`to_be_bytes`) -/
+def beBytes : Nat → Nat → Bytes
+  | 0, _ => []
+  | w + 1, x => beBytes w (x / 256) ++ [UInt8.ofNat (x % 256)]
+
 /-- `BigSize::write` -/
 def bigSize (n : Nat) : Bytes :=
-  let be (k : Nat) : Bytes := (List.range k).map fun i => UInt8.ofNat (n / 256 ^ (k - 1 - i) % 256)
-  if n < 0xfd then [UInt8.ofNat n] else if n < 0x10000 then 0xfd :: be 2 else if n < 0x100000000 then 0xfe :: be 4 else 0xff :: be 8
+  if n < 0xfd then [UInt8.ofNat n] else if n < 0x10000 then 0xfd :: beBytes 2 n else if n < 0x100000000 then 0xfe :: beBytes 4 n else 0xff :: beBytes 8 n
 
 def encodeRecords (recs : List Rec) : Bytes := recs.flatMap fun r => bigSize r.1 ++ bigSize r.2.length ++ r.2
 
@@ -114,5 +118,60 @@ def parsePayload (b : Bytes) : Option (List Rec) :=
   match readBigSize b with
   | none => none
   | some (l, rest) => if rest.length ≠ l then none else parseRecords (rest.length + 1) rest
+
+/-! ## value encodings of the typed records (which encoding a record uses is GENERATED from the writers / the reader:
+   `writeEnc…` / `inboundEnc` in Generated/OnionPayloads.lean) -/
+
+/-- how the value of a typed record is serialized -/
+inductive ValEnc
+  | hzbd (w : Nat)   -- HighZeroBytesDroppedBigSize<u{8w}>: big-endian without leading zero bytes
+  | be (w : Nat)     -- fixed-width big-endian integer (u64 short_channel_id)
+  | fixed (n : Nat)  -- exactly `n` bytes ([u8; 32] preimage, 33-byte public key; point validity is not modelled)
+  | raw              -- WithoutLength<Vec<u8>> / an opaque serialized object: all bytes of the record
+  | secretTotal      -- FinalOnionHopData: [u8; 32] payment_secret ‖ HighZeroBytesDroppedBigSize<u64> total_msat
+  deriving DecidableEq, Repr
+
+/-- a field value as the caller means it -/
+inductive HVal
+  | num (n : Nat)
+  | bytes (b : Bytes)
+  | secretTotal (secret : Bytes) (total : Nat)
+  deriving DecidableEq
+
+/-- mirrors `impl Writeable for HighZeroBytesDroppedBigSize<uN>`: `to_be_bytes()[leading_zeros / 8 ..]` -/
+def hzbdEnc (w x : Nat) : Bytes := (beBytes w x).dropWhile (· == 0)
+
+/-- mirrors `impl Readable for HighZeroBytesDroppedBigSize<uN>` inside a TLV record (the record's bytes are all it may
+    read): more than `w` bytes leave bytes unread (InvalidValue), a leading zero byte is InvalidValue, nothing is 0 -/
+def hzbdDec (w : Nat) (b : Bytes) : Option Nat :=
+  if b.length > w then none else if b.head? = some 0 then none else some (beNat b)
+
+def encodeVal : ValEnc → HVal → Bytes
+  | .hzbd w, .num n => hzbdEnc w n
+  | .be w, .num n => beBytes w n
+  | .fixed _, .bytes b => b
+  | .raw, .bytes b => b
+  | .secretTotal, .secretTotal s t => s ++ hzbdEnc 8 t
+  | _, _ => []
+
+/-- `none` = the record's value does not decode (ShortRead / InvalidValue) -/
+def decodeVal : ValEnc → Bytes → Option HVal
+  | .hzbd w, b => (hzbdDec w b).map .num
+  | .be w, b => if b.length = w then some (.num (beNat b)) else none
+  | .fixed n, b => if b.length = n then some (.bytes b) else none
+  | .raw, b => some (.bytes b)
+  | .secretTotal, b => if b.length < 32 then none else (hzbdDec 8 (b.drop 32)).map (.secretTotal (b.take 32))
+
+/-- the value is of the encoding's type (integer range / byte length) -/
+def HVal.valid : ValEnc → HVal → Bool
+  | .hzbd w, .num n => decide (n < 256 ^ w)
+  | .be w, .num n => decide (n < 256 ^ w)
+  | .fixed k, .bytes b => b.length == k
+  | .raw, .bytes _ => true
+  | .secretTotal, .secretTotal s t => s.length == 32 && decide (t < 256 ^ 8)
+  | _, _ => false
+
+/-- the encoding of type `t` in a generated table (`raw` when absent) -/
+def encOf (tbl : List (Nat × ValEnc)) (t : Nat) : ValEnc := (tbl.lookup t).getD .raw
 
 end Ldk.OnionPayload
